@@ -17,6 +17,7 @@ package main
 import (
 	"bufio"
 	"context"
+	"crypto/tls"
 	"encoding/binary"
 	"errors"
 	"flag"
@@ -28,11 +29,13 @@ import (
 	"sort"
 	"strings"
 	"sync"
+	"sync/atomic"
 	"time"
 
 	kafka "github.com/segmentio/kafka-go"
 	"github.com/segmentio/kafka-go/compress"
 	"github.com/segmentio/kafka-go/protocol/produce"
+	"github.com/segmentio/kafka-go/sasl/plain"
 	"kverif/fakert"
 	"kverif/kvfmt"
 )
@@ -297,6 +300,9 @@ type plan struct {
 	bigLeft       int  // near-1MiB messages still allowed in this scenario
 
 	// effective configuration read from the scenario's Writer (VerifWriterEffective)
+	custom   func(p *plan, release func()) line // scenarios with their own choreography
+	cfgCodes []int                              // codes a custom scenario injects outside p.faults (for the cfg list)
+
 	readTimeout, writeTimeout time.Duration // explicit values (0 = the harness' 5 s unless left at zero)
 
 	effSet                  bool
@@ -891,6 +897,9 @@ func (p *plan) effTopic(m planMsg) int {
 
 func (p *plan) cfg() string {
 	codes := map[int]bool{}
+	for _, c := range p.cfgCodes {
+		codes[c] = true
+	}
 	for _, s := range p.faults {
 		for _, re := range s {
 			if re.Kind != fakert.AppliedAcked {
@@ -1040,6 +1049,8 @@ type scRun struct {
 
 	relOnce sync.Once
 	release func()
+
+	completions int64 // messages handed to Completion so far (atomic)
 
 	anomMu sync.Mutex
 	anom   string // first Go-side anomaly (ANOMALY:...), reported when there is no HANG / PANIC
@@ -1347,7 +1358,49 @@ func (p *plan) buildWriter(fake *fakert.Fake) *kafka.Writer {
 	return w
 }
 
-func runScenario(p *plan, release func()) line {
+func (s *scRun) finish() line {
+	hist, fake, p := s.hist, s.fake, s.p
+	// A RoundTrip abandoned by the writer may still be inside the fake:
+	// let it land so that the history and the logs show it.
+	for i := 0; i < 200 && fake.InFlight() > 0; i++ {
+		time.Sleep(5 * time.Millisecond)
+	}
+	events := hist.Freeze()
+	tps, logs := fake.Logs()
+	for i, tp := range tps {
+		events = append(events, fmt.Sprintf("L%s.%s:%s", hx(fake.TopicNum(tp.Topic)), hx(tp.Partition), fakert.IDs(logs[i])))
+	}
+	s.mu.Lock()
+	res := s.result
+	s.mu.Unlock()
+	if res == "" && fake.TwoInFlight() { // before the other anomalies
+		res = "ANOMALY:two-in-flight"
+		fmt.Fprintf(os.Stderr, "writer: %s %s\n", p.cfg(), res)
+	}
+	if d := fake.RecordAnomaly(); d != "" {
+		s.anomaly("record-attrs", d)
+	}
+	s.anomMu.Lock()
+	if res == "" && s.anom != "" {
+		res = s.anom
+		fmt.Fprintf(os.Stderr, "writer: %s %s: %s\n", p.cfg(), s.anom, s.anomD)
+	}
+	s.anomMu.Unlock()
+	if res == "" {
+		res = "ok"
+	}
+	s.observedFeatures(fake.Journal(), events)
+	if res == "HANG:close" {
+		p.feat["close-hang"] = true
+	}
+	if fake.TwoInFlight() { // also when a HANG / PANIC takes the result
+		p.feat["two-in-flight"] = true
+	}
+	return line{"e2e", p.cfg() + " " + strings.Join(events, " "), res, kvfmt.Set(p.feat)}
+}
+
+// setupScenario builds the fake, the history and the Writer of a plan.
+func setupScenario(p *plan, release func()) *scRun {
 	hist := fakert.NewHistory()
 	fake := fakert.New(hist, p.topics)
 	for tp, sc := range p.faults {
@@ -1357,7 +1410,6 @@ func runScenario(p *plan, release func()) line {
 		fake.SetMetaFault(p.metaAt, p.metaCode)
 	}
 	s := &scRun{p: p, hist: hist, fake: fake, abort: make(chan struct{}), release: release}
-	defer s.relOnce.Do(release)
 	expected := map[uint64]kafka.Message{}
 	for _, calls := range append(append([][]planCall(nil), p.callers...), p.afterClose) {
 		for _, c := range calls {
@@ -1379,6 +1431,7 @@ func runScenario(p *plan, release func()) line {
 		if err == nil && p.acks != kafka.RequireNone { // without acks the writer gets no offsets
 			s.checkCompletion(msgs)
 		}
+		atomic.AddInt64(&s.completions, int64(len(msgs)))
 	}
 	ebs, ebb, ema, _, _, _, _, _ := kafka.VerifWriterEffective(w)
 	p.effBS, p.effBB, p.effMaxAtt, p.effSet = ebs, int(ebb), ema, true
@@ -1391,6 +1444,13 @@ func runScenario(p *plan, release func()) line {
 		p.effBB = p.batchBytes
 	}
 	s.w = w
+	return s
+}
+
+func runScenario(p *plan, release func()) line {
+	s := setupScenario(p, release)
+	defer s.relOnce.Do(release)
+	hist, w := s.hist, s.w
 
 	var wg sync.WaitGroup
 	for g := range p.callers {
@@ -1412,42 +1472,7 @@ func runScenario(p *plan, release func()) line {
 	callersDone := make(chan struct{})
 	go func() { wg.Wait(); close(callersDone) }()
 
-	finish := func() line {
-		// A RoundTrip abandoned by the writer may still be inside the fake:
-		// let it land so that the history and the logs show it.
-		for i := 0; i < 200 && fake.InFlight() > 0; i++ {
-			time.Sleep(5 * time.Millisecond)
-		}
-		events := hist.Freeze()
-		tps, logs := fake.Logs()
-		for i, tp := range tps {
-			events = append(events, fmt.Sprintf("L%s.%s:%s", hx(fake.TopicNum(tp.Topic)), hx(tp.Partition), fakert.IDs(logs[i])))
-		}
-		s.mu.Lock()
-		res := s.result
-		s.mu.Unlock()
-		if res == "" && fake.TwoInFlight() { // before the other anomalies
-			res = "ANOMALY:two-in-flight"
-			fmt.Fprintf(os.Stderr, "writer: %s %s\n", p.cfg(), res)
-		}
-		if d := fake.RecordAnomaly(); d != "" {
-			s.anomaly("record-attrs", d)
-		}
-		s.anomMu.Lock()
-		if res == "" && s.anom != "" {
-			res = s.anom
-			fmt.Fprintf(os.Stderr, "writer: %s %s: %s\n", p.cfg(), s.anom, s.anomD)
-		}
-		s.anomMu.Unlock()
-		if res == "" {
-			res = "ok"
-		}
-		s.observedFeatures(fake.Journal(), events)
-		if res == "HANG:close" {
-			p.feat["close-hang"] = true
-		}
-		return line{"e2e", p.cfg() + " " + strings.Join(events, " "), res, kvfmt.Set(p.feat)}
-	}
+	finish := s.finish
 
 	if p.closeRace {
 		select {
@@ -1814,6 +1839,249 @@ func lateLandingPlans() []*plan {
 	return plans
 }
 
+// closeRaceUsedPlans: Close racing a call that was admitted before Close and
+// is still in its metadata lookup, on a writer that HAS ALREADY WRITTEN (its
+// partition-writer map exists). variant a: nothing else in flight; b: a
+// produce answer of an earlier call is still held back by the fake (the first
+// sender is draining); c: like b, but that answer is a lost one that is retried.
+// The late call must return closed without creating a second sender, and Close
+// must return. Everything is sequenced by events, not by sleeping.
+func closeRaceUsedPlans() []*plan {
+	var plans []*plan
+	for _, async := range []bool{false, true} {
+		for _, variant := range []string{"a", "b", "c"} {
+			p := &plan{feat: map[string]bool{}, faults: map[fakert.TP][]fakert.Reaction{}}
+			p.topics = []int{1}
+			p.acks = kafka.RequireAll
+			p.batchSize = 1
+			p.batchBytes = 1000
+			p.sizeBB = 1000
+			p.maxAttempts = 3
+			p.async = async
+			p.wtopic = 0
+			p.det = false
+			p.batchTimeout = 10 * time.Millisecond
+			p.backoffMin = 2 * time.Millisecond
+			p.backoffMax = 2 * time.Millisecond
+			g1, gL := 1, 2
+			id1 := uint64(g1)<<20 + 1
+			if async {
+				g1, id1 = 0, 2 // the async caller does not block: same goroutine
+			}
+			calls := []planCall{
+				{msgs: []planMsg{sizedPlainMsg(1, 40, 0)}, times: "zero"},
+				{msgs: []planMsg{sizedPlainMsg(id1, 40, 0)}, times: "zero"},
+				{msgs: []planMsg{sizedPlainMsg(uint64(gL)<<20+1, 40, 0)}, times: "zero"},
+			}
+			ncallers := 3
+			if async {
+				ncallers = 2
+			}
+			if variant == "a" {
+				calls = []planCall{calls[0], calls[2]}
+				ncallers = 2
+			}
+			p.callers = [][]planCall{calls} // for the features and the expected messages only
+			p.planFeatures()
+			delete(p.feat, "callers=1")
+			p.feat[fmt.Sprintf("callers=%d", ncallers)] = true
+			for _, t := range []string{"close-race-used", "used-writer", "close-race", "variant=" + variant} {
+				p.feat[t] = true
+			}
+			if variant == "c" {
+				p.cfgCodes = []int{fakert.CodePipe}
+			}
+			variant, g1 := variant, g1
+			p.custom = func(p *plan, release func()) line { return runCloseRaceUsed(p, release, variant, g1, gL) }
+			plans = append(plans, p)
+		}
+	}
+	return plans
+}
+
+// waitFor polls cond under the scenario watchdog (10 s); false = timed out.
+func waitFor(cond func() bool) bool {
+	deadline := time.Now().Add(watchdog)
+	for !cond() {
+		if time.Now().After(deadline) {
+			return false
+		}
+		time.Sleep(time.Millisecond)
+	}
+	return true
+}
+
+func runCloseRaceUsed(p *plan, release func(), variant string, g1, gL int) line {
+	s := setupScenario(p, release)
+	defer s.relOnce.Do(release)
+	calls := p.callers[0]
+	tp := fakert.TP{Topic: "t0", Partition: 0}
+	guard := func(f func()) { // recover in every goroutine we start
+		defer func() {
+			if r := recover(); r != nil {
+				s.fail("PANIC:" + sanitize(fmt.Sprint(r)))
+			}
+		}()
+		f()
+	}
+	var wg sync.WaitGroup
+
+	// call 0 completes normally: the writer is now "used"
+	if !s.doCall(0, &calls[0]) {
+		return s.finish()
+	}
+	if !waitFor(func() bool { return atomic.LoadInt64(&s.completions) >= 1 && s.fake.InFlight() == 0 }) {
+		s.fail("HANG:completion")
+		return s.finish()
+	}
+	late := &calls[1]
+	if variant != "a" {
+		// an earlier batch whose answer the fake holds back: the first sender is draining
+		if variant == "b" {
+			s.fake.SetScript(tp, []fakert.Reaction{{Kind: fakert.AppliedAcked, Delay: 300 * time.Millisecond}})
+		} else {
+			s.fake.SetScript(tp, []fakert.Reaction{{Kind: fakert.AppliedLost, Code: fakert.CodePipe, Delay: 300 * time.Millisecond}, {Kind: fakert.AppliedAcked}})
+		}
+		late = &calls[2]
+		if g1 == 0 {
+			if !s.doCall(0, &calls[1]) {
+				return s.finish()
+			}
+		} else {
+			wg.Add(1)
+			go guard(func() { defer wg.Done(); s.doCall(g1, &calls[1]) })
+		}
+		if !waitFor(func() bool { return s.fake.InFlight() >= 1 || atomic.LoadInt64(&s.completions) >= 2 }) {
+			s.fail("HANG:call")
+			return s.finish()
+		}
+	}
+
+	// the late call parks in its metadata lookup, past the closed check
+	s.fake.HoldMetadata()
+	wg.Add(1)
+	go guard(func() { defer wg.Done(); s.doCall(gL, late) })
+	parked := waitFor(s.fake.MetadataHeld)
+
+	s.hist.Record("X")
+	closed := make(chan struct{})
+	go guard(func() {
+		defer close(closed)
+		s.w.Close()
+		s.hist.Record("Y")
+	})
+	// Close has marked the writer closed when an empty call is refused
+	marked := waitFor(func() bool { return s.w.WriteMessages(context.Background()) == io.ErrClosedPipe })
+	s.fake.ReleaseMetadata()
+	if !parked || !marked {
+		p.feat["choreography-failed"] = true
+	}
+	wg.Wait() // every call is under its own watchdog
+	select {
+	case <-s.abort:
+		return s.finish()
+	default:
+	}
+	if !s.watch(closed) {
+		s.fail("HANG:close")
+	}
+	return s.finish()
+}
+
+// ---------------------------------------------------------------------------
+// op trk: BatchTimeout counts from the opening of a batch (trickling producer)
+
+// runTRKOnce: an async writer receives one message every T/3, 14 in all; each
+// produce request is reported as the accept times (ms since start) of its
+// messages. maxSpan is the largest last-first of a request.
+func runTRKOnce(T time.Duration) (reqs []string, maxSpan int64, res string) {
+	const n = 14
+	fake := fakert.New(fakert.NewHistory(), []int{1})
+	w := &kafka.Writer{
+		Addr:         kafka.TCP("fake:9092"),
+		Topic:        "t0",
+		Transport:    fake,
+		BatchSize:    100,
+		BatchTimeout: T,
+		MaxAttempts:  1,
+		RequiredAcks: kafka.RequireAll,
+		Async:        true,
+		Balancer:     kafka.BalancerFunc(func(kafka.Message, ...int) int { return 0 }),
+		Completion:   func([]kafka.Message, error) {},
+	}
+	var mu sync.Mutex
+	accept := make([]int64, n+1)
+	res = "ok"
+	done := make(chan string, 1)
+	go func() {
+		defer func() {
+			if r := recover(); r != nil {
+				done <- "PANIC:" + sanitize(fmt.Sprint(r))
+			}
+		}()
+		start := time.Now()
+		for i := 1; i <= n; i++ {
+			if d := time.Until(start.Add(time.Duration(i-1) * T / 3)); d > 0 {
+				time.Sleep(d)
+			}
+			if err := w.WriteMessages(context.Background(), idMsg(uint64(i))); err != nil {
+				done <- "other." + sanitize(err.Error())
+				return
+			}
+			mu.Lock()
+			accept[i] = time.Since(start).Milliseconds()
+			mu.Unlock()
+		}
+		time.Sleep(3 * T)
+		w.Close()
+		done <- "ok"
+	}()
+	select {
+	case res = <-done:
+	case <-time.After(watchdog + 20*T):
+		res = "HANG:close"
+	}
+	mu.Lock()
+	defer mu.Unlock()
+	for _, a := range fake.Journal() {
+		var l []string
+		first, last := int64(-1), int64(0)
+		for _, id := range a.IDs {
+			t := int64(-1)
+			if id >= 1 && id <= n {
+				t = accept[id]
+			}
+			l = append(l, kvfmt.I(t))
+			if first < 0 {
+				first = t
+			}
+			last = t
+		}
+		if last-first > maxSpan {
+			maxSpan = last - first
+		}
+		reqs = append(reqs, strings.Join(l, ","))
+	}
+	return reqs, maxSpan, res
+}
+
+func runTRK(T time.Duration) line {
+	ms := T.Milliseconds()
+	feat := map[string]bool{"trickle": true, "async": true, fmt.Sprintf("T=%x", ms): true}
+	reqs, span, res := runTRKOnce(T)
+	if res == "ok" && span > 2*ms { // timing class: one second chance
+		feat["rerun"] = true
+		reqs, span, res = runTRKOnce(T)
+	}
+	feat[fmt.Sprintf("requests=%x", len(reqs))] = true
+	feat[fmt.Sprintf("max-span=%x", span)] = true
+	rl := "."
+	if len(reqs) > 0 {
+		rl = strings.Join(reqs, "/")
+	}
+	return line{"trk", fmt.Sprintf("%x %x %x %s", 100, ms, ms, rl), res, kvfmt.Set(feat)}
+}
+
 // ---------------------------------------------------------------------------
 // step level: NewWriter's mapping of WriterConfig onto the Writer (op nwc)
 
@@ -1900,6 +2168,82 @@ func genNWC(r *rand.Rand, allZero bool) line {
 		feat["batchbytes<1mib"] = true
 	}
 	return line{"nwc", args, res, kvfmt.Set(feat)}
+}
+
+// ---------------------------------------------------------------------------
+// step level: NewWriter's mapping of the Dialer onto its Transport (op nwt)
+
+// genNWT builds a writer with NewWriter and reads the Transport it made back:
+// sasl:tls:clientID:idleTimeoutMs:metadataTTLms:dial. The writer is never used.
+func genNWT(sasl, tlsOn, clientID, dialerNil bool, idleMs, rebalMs int64) line {
+	if dialerNil {
+		sasl, tlsOn, clientID = false, false, false
+	}
+	ms := func(x int64) time.Duration { return time.Duration(x) * time.Millisecond }
+	cfg := kafka.WriterConfig{Brokers: []string{"b0:9092"}, Topic: "t0", IdleConnTimeout: ms(idleMs), RebalanceInterval: ms(rebalMs)}
+	if !dialerNil {
+		d := &kafka.Dialer{}
+		if clientID {
+			d.ClientID = "cid"
+		}
+		if sasl {
+			d.SASLMechanism = plain.Mechanism{Username: "u", Password: "p"}
+		}
+		if tlsOn {
+			d.TLS = &tls.Config{}
+		}
+		cfg.Dialer = d
+	}
+	args := fmt.Sprintf("%s %s %s %s %s %s", kvfmt.Bool(sasl), kvfmt.Bool(tlsOn), kvfmt.Bool(clientID), kvfmt.Bool(dialerNil), kvfmt.I(idleMs), kvfmt.I(rebalMs))
+	feat := map[string]bool{"dialer-given": true}
+	if dialerNil {
+		delete(feat, "dialer-given")
+	}
+	for tag, on := range map[string]bool{"sasl": sasl, "tls": tlsOn, "sasl-no-tls": sasl && !tlsOn, "dialer-nil": dialerNil,
+		"idle-default": idleMs == 0, "ttl-default": rebalMs == 0} {
+		if on {
+			feat[tag] = true
+		}
+	}
+	res := "x"
+	func() {
+		defer func() {
+			if r := recover(); r != nil {
+				res = "PANIC:" + sanitize(fmt.Sprint(r))
+			}
+		}()
+		w := kafka.NewWriter(cfg)
+		tr, ok := w.Transport.(*kafka.Transport)
+		if !ok {
+			res = "x.transport-" + sanitize(fmt.Sprintf("%T", w.Transport))
+			return
+		}
+		cid := tr.ClientID
+		if cid == "" {
+			cid = "."
+		}
+		res = fmt.Sprintf("%s:%s:%s:%s:%s:%s", kvfmt.Bool(tr.SASL != nil), kvfmt.Bool(tr.TLS != nil), sanitize(cid),
+			kvfmt.I(int64(tr.IdleTimeout/time.Millisecond)), kvfmt.I(int64(tr.MetadataTTL/time.Millisecond)), kvfmt.Bool(tr.Dial != nil))
+	}()
+	return line{"nwt", args, res, kvfmt.Set(feat)}
+}
+
+func nwtLines(seed int64, n int) []line {
+	r := rand.New(rand.NewSource(seed))
+	var lines []line
+	for _, c := range [][2]bool{{false, false}, {false, true}, {true, false}, {true, true}} {
+		lines = append(lines, genNWT(c[0], c[1], true, false, 0, 0))
+	}
+	dur := func() int64 {
+		if r.Intn(3) == 0 {
+			return 0
+		}
+		return 1 + r.Int63n(1000000)
+	}
+	for i := 0; i < n; i++ {
+		lines = append(lines, genNWT(r.Intn(2) == 0, r.Intn(2) == 0, r.Intn(2) == 0, r.Intn(5) == 0, dur(), dur()))
+	}
+	return lines
 }
 
 // ---------------------------------------------------------------------------
@@ -2502,10 +2846,17 @@ func main() {
 	count := flag.Int("n", 300, "number of e2e scenarios")
 	jobs := flag.Int("j", 16, "scenarios run concurrently")
 	wcut := flag.Int("wcut", 0, "print only this many `wcut` scenarios (produce response cut at byte k, wire level) and exit")
+	nwt := flag.Int("nwt", 0, "print only the 4 fixed + this many random `nwt` cases (NewWriter's Dialer -> Transport mapping) and exit")
 	flag.Parse()
 	r := rand.New(rand.NewSource(*seed))
 	out := bufio.NewWriterSize(os.Stdout, 1<<20)
 	defer out.Flush()
+	if *nwt > 0 {
+		for i, l := range nwtLines(*seed, *nwt) {
+			fmt.Fprintf(out, "%d %s %s | %s | %s\n", i+1, l.op, l.args, l.res, l.feats)
+		}
+		return
+	}
 	if *wcut > 0 {
 		for i, l := range wcutLines(*seed, *wcut) {
 			fmt.Fprintf(out, "%d %s %s | %s | %s\n", i+1, l.op, l.args, l.res, l.feats)
@@ -2553,6 +2904,19 @@ func main() {
 	plans = append(plans, defaultBatchBytesPlans()...)
 	plans = append(plans, newWriterBatchBytesPlans()...)
 	plans = append(plans, lateLandingPlans()...)
+	plans = append(plans, closeRaceUsedPlans()...)
+
+	// trk: timed, runs alongside the e2e scenarios; its lines follow rtb
+	trkAt := len(lines)
+	trkLines := make([]line, 3)
+	var trkWG sync.WaitGroup
+	for i, T := range []time.Duration{300 * time.Millisecond, 200 * time.Millisecond, 400 * time.Millisecond} {
+		trkWG.Add(1)
+		go func(i int, T time.Duration) {
+			defer trkWG.Done()
+			trkLines[i] = runTRK(T)
+		}(i, T)
+	}
 	results := make([]line, len(plans))
 	sem := make(chan struct{}, *jobs)
 	var wg sync.WaitGroup
@@ -2566,10 +2930,16 @@ func main() {
 					results[i] = line{"e2e", plans[i].cfg(), "PANIC:" + sanitize(fmt.Sprint(r)), "harness-panic"}
 				}
 			}()
+			if plans[i].custom != nil {
+				results[i] = plans[i].custom(plans[i], func() { <-sem })
+				return
+			}
 			results[i] = runScenario(plans[i], func() { <-sem })
 		}(i)
 	}
 	wg.Wait()
+	trkWG.Wait()
+	lines = append(lines[:trkAt:trkAt], append(trkLines, lines[trkAt:]...)...)
 	lines = append(lines, results...)
 	lines = append(lines, wireLines(*seed)...)
 	lines = append(lines, runF3())
